@@ -62,6 +62,9 @@ def r07_1(ctx: Ctx):
     deme_v, cand_v = outer[0].target.elts[0].id, outer[0].target.elts[1].id
     inner = [n for n in ast.walk(outer[0]) if isinstance(n, ast.For) and n is not outer[0] and norm(n.iter) == f"{cand_v}.individuals" and isinstance(n.target, ast.Name)]
     if len(inner) != 1 or not any(x is call for x in ast.walk(inner[0])):
+        encl = [n for n in ast.walk(outer[0]) if isinstance(n, ast.For) and n is not outer[0] and any(x is call for x in ast.walk(n))]
+        if encl:
+            return [ctx.ob("R07.1", f, encl[0], status=VIOLATION, detail=f"children are created while iterating `{norm(encl[0].iter)}`, not exactly the accepted candidates `{cand_v}.individuals` of the keyed deme (a candidate can be sprouted twice or skipped)", construct="one-per-candidate")]
         return [ctx.ob("R07.1", f, call, status=INCONCLUSIVE, detail="child construction is not inside `for ind in candidates.individuals`", construct="inner-loop")]
     ind_v = inner[0].target.id
     # exactly one child per candidate: the call is not inside a further loop
